@@ -13,6 +13,12 @@ import (
 )
 
 func (core *JApiCore) buildCatalog() *jerr.JApiError {
+	if len(core.directivesWithPastes) == 0 {
+		// The document without directives (i.e. empty or containing only comments
+		// or macros) doesn't have the mandatory JSIGHT directive.
+		return core.japiError(jerr.DirectiveJSIGHTShouldBeTheFirst, 0)
+	}
+
 	if len(core.directivesWithPastes) != 0 && core.directivesWithPastes[0].Type() != directive.Jsight {
 		return core.directivesWithPastes[0].KeywordError(jerr.DirectiveJSIGHTShouldBeTheFirst)
 	}
